@@ -154,7 +154,7 @@ impl UnitRunner for C10 {
             let cls = if sd.len() < sc.len() || !dok { "code-not-executed" } else { "prose-changed-binding" };
             out.fail(format!("C10|{}|{}", cls, locus), case, format!("code only: {:?} ; document: {:?}{}", short(&sc), short(&sd), if dok { "" } else { " (the document stopped with an error)" }));
           }
-          if lo % 480 == 0 && ins.len() == 1 && ins[0].0 == 1 { out.sample(json!({"document": doc, "bindings": short(&sd)})); }
+          if lo % 480 == 0 && out.samples.is_empty() { out.sample(json!({"document": doc, "bindings": short(&sd)})); }
         }
         Doc::Fences(layout, fail, stmts) => {
           let locus = format!("fences:{}{}", layout.iter().map(|n| match *n { 0 => "u", 1 => "a", 2 => "b", 3 => "h", 4 => "d", _ => "k" }).collect::<String>(), if fail.is_some() { "+failing" } else { "" });
